@@ -100,7 +100,7 @@ def check_C10(tier):
     c.add_report(rep, reg("FollowFileExecutor vs Follow.tla (replay, child process)", "follow-exec"))
     # 6. impl -> spec: a real writer thread races the real iterator; TLC explains the trace
     for i in range(4 if thorough else 1):
-        tp = vh_trace("follow", 400 if thorough else 150, "follow%d" % i, seed_=vlib.seed() * 100 + i)
+        tp = vh_trace("follow", 600 if thorough else 400, "follow%d" % i, seed_=vlib.seed() * 100 + i)
         if tp is None:
             c.violation("follow race: hang", {"seed": vlib.seed() * 100 + i}); continue
         ok, tr = validate_trace("Trace_Follow", tp, "trace-follow%d" % i, constants=follow_consts(0, [], 0, True, []),
